@@ -660,6 +660,19 @@ func (w *World) member(op *Op) bool {
 	return root != nil && root.Lookup(op.Name) != nil
 }
 
+// trustedFSFor builds the TrustedFS of a ParseFS call: directly around the
+// simulated disk, through TrustedFSFromTrustedSource (os.DirFS, redirected to
+// the simulated disk by rule R4), or a Sub of it.
+func trustedFSFor(op *Op) (template.TrustedFS, error) {
+	switch op.Via {
+	case "dirfs":
+		return template.TrustedFSFromTrustedSource(ts(".")), nil
+	case "sub":
+		return template.TrustedFSForSimulation(simFS{}).Sub(ts("sub"))
+	}
+	return template.TrustedFSForSimulation(simFS{}), nil
+}
+
 func tt(s string) template.TrustedTemplate {
 	return tconv.TrustedTemplateFromStringKnownToSatisfyTypeContract(s)
 }
@@ -728,7 +741,11 @@ func (w *World) do(op *Op, res *Result) {
 				t, err = template.ParseGlobFromTrustedSource(ts(op.Text))
 			}
 		case opParseFS:
-			t, err = template.ParseFS(template.TrustedFSForSimulation(simFS{}), op.Files...)
+			var tfs template.TrustedFS
+			tfs, err = trustedFSFor(op)
+			if err == nil {
+				t, err = template.ParseFS(tfs, op.Files...)
+			}
 		default:
 			res.Skipped = "no such set"
 			return
@@ -780,7 +797,10 @@ func (w *World) do(op *Op, res *Result) {
 		}
 		classify(err, res)
 	case opParseFS:
-		_, err := t.ParseFS(template.TrustedFSForSimulation(simFS{}), op.Files...)
+		tfs, err := trustedFSFor(op)
+		if err == nil {
+			_, err = t.ParseFS(tfs, op.Files...)
+		}
 		classify(err, res)
 	case opClone:
 		c, err := t.Clone()
@@ -817,6 +837,11 @@ func (w *World) do(op *Op, res *Result) {
 		t.Option(op.Text)
 	case opCSP:
 		t.CSPCompatible()
+	case opDelims:
+		lr := strings.SplitN(op.Text, " ", 2)
+		if len(lr) == 2 {
+			t.Delims(lr[0], lr[1])
+		}
 	case opExec:
 		res.Target = t.Name()
 		res.Exists = true
